@@ -1263,6 +1263,8 @@ def main(outfile):
     py2lean_asyncinit.main_asyncinit(os.path.join(os.path.dirname(outfile), 'TranslatedAsyncInit.lean'), sys.modules[__name__])
     import py2lean_ctor                                          # separate module: Event / Repeat constructors, task monitor (C18)
     py2lean_ctor.main_ctor(os.path.join(os.path.dirname(outfile), 'TranslatedCtor.lean'), write_if_changed)
+    import py2lean_handlers                                      # separate module: SBlock.__init_subclass__, the handler tables (C11)
+    py2lean_handlers.main_handlers(os.path.join(os.path.dirname(outfile), 'TranslatedHandlers.lean'), sys.modules[__name__])
 
 if __name__ == '__main__':
     main(sys.argv[1])
